@@ -230,15 +230,20 @@ def run(ctx):
 
         # two requests built from ONE params dict, each with its own progress token, emitted after both exist
         for mk_name, mk in (("create_request", J.create_request), ("JSONRPCMessage.create_request", J.JSONRPCMessage.create_request)):
-            for base_p in ({"name": "t"}, {"name": "t", "_meta": {"trace": "x"}}):
+            for base_p in ({"name": "t"}, {"name": "t", "_meta": {"trace": "x"}}, {"name": "t", "_meta": None}):
                 shared = json.loads(json.dumps(base_p))
+                import inspect as _inspect
+                if "progress_token" not in _inspect.signature(mk).parameters:
+                    break      # this builder takes no progress token
                 try:
                     a = mk("tools/call", shared, id="a", progress_token="tok-a")
                     b = mk("tools/call", shared, id="b", progress_token="tok-b")
-                except TypeError:
-                    break      # this builder takes no progress token
+                except Exception as e:  # noqa
+                    ctx.violation("constructor_rejects_valid_input", f"{mk_name}(params={base_p!r}, progress_token=...) raised {e!r}",
+                                  {"params": base_p, "builder": mk_name})
+                    continue
                 for obj, tok in ((a, "tok-a"), (b, "tok-b")):
-                    want_p = dict(base_p, _meta=dict(base_p.get("_meta", {}), progressToken=tok))
+                    want_p = dict(base_p, _meta=dict(base_p.get("_meta") or {}, progressToken=tok))
                     check_emission(ctx, f"{mk_name}(shared params, progress_token)", obj, {"id": obj.id, "params": base_p},
                                    expect={"kind": "request", "id": obj.id, "method": "tools/call", "params": want_p})
                 ctx.record({"shared_params": base_p, "builder": mk_name}, shape=None, nontrivial=True, cls="constructors_shared_params")
